@@ -218,7 +218,7 @@ func checkC01(r *Report, known []Finding) {
 		m, err := regexp.MatchString(p, string(h))
 		return fmt.Sprint(m, err == nil)
 	}})
-	runE2E(r, known, e2eSpec{prop: "C01", obs: obs, np: 5000, nh: 12, npT: 24000, nhT: 16, nontriv: func(w string) bool { return strings.HasPrefix(w, "true") }})
+	runE2E(r, known, e2eSpec{prop: "C01", obs: obs, np: 5000, nh: 12, npT: 24000, nhT: 16, probes: e2eProbes, nontriv: func(w string) bool { return strings.HasPrefix(w, "true") }})
 	replayKnownExamples(r, known, "C01")
 }
 
@@ -226,7 +226,7 @@ func checkC02(r *Report, known []Finding) {
 	r.Rule = "end-to-end: Find, FindString, FindIndex, FindStringIndex, FindReaderIndex vs regexp on patterns from corpus/mutation/grammar x haystacks derived from the pattern (valid, " +
 		"multi-byte, ill-formed, long > 100 bytes); the engines underneath are tied to the proved reference by the C14 check; non-trivial = a match exists; distinct by pattern"
 	obs := append(obsFind(), obsReader()[1])
-	runE2E(r, known, e2eSpec{prop: "C02", obs: obs, np: 5000, nh: 12, npT: 24000, nhT: 16, nontriv: func(w string) bool { return w != "nil" && w != `""` }})
+	runE2E(r, known, e2eSpec{prop: "C02", obs: obs, np: 5000, nh: 12, npT: 24000, nhT: 16, probes: e2eProbes, nontriv: func(w string) bool { return w != "nil" && w != `""` }})
 	c02ReverseTie(r)
 	c02RevSuffixTie(r)
 	c02StrategyTies(r)
@@ -446,3 +446,9 @@ func c02RevSuffixTie(r *Report) {
 		}
 	}
 }
+
+// e2eProbes: shapes whose strategies keep budgets, windows or candidate loops (digit prefilter with its scan budget, reverse
+// strategies, start-anchored dot loops): they run first and also on stretched haystacks.
+var e2eProbes = []string{`[0-9][0-9a-f]*h|[0-9]+px`, `[0-9][a-z0-9]*X|7Y`, `(\d[\da-z]*_id|\d{4}-\d{2})`, `[0-9]+[a-z]*\.com`, `\d+\.\d+\.\d+`,
+	`[a-z]+\.txt`, `\w+@\w+\.com`, `.*error.*`, `[a-z ]+connection[a-z ]+[0-9]`, `(?m)^/.*[0-9]\.php`, `^a.*b`, `^.+b`, `\bport.\d+`, `\Bion.\w`,
+	`[a-z]+[a-z]+[0-9]`, `(foo|bar)+x`, `"[^"]*"`}
